@@ -20,6 +20,7 @@
 From Coq Require Import ZArith Bool List.
 Import ListNotations.
 From PV Require Import Lib.PyBase Spec.Cal Gen.Helpers Model.RustHelpers Model.PdBase Gen.PreciseDiff Model.RustPreciseDiff Model.PdInterval Model.PdHistory.
+From PV Require Import Model.PdForeign Proofs.C06Foreign.
 From PV Require Import Proofs.C06History Proofs.C06Facts Proofs.C06Spec Proofs.C06Dates Proofs.C06Rebuild Proofs.C06Interval Proofs.C06Rust Proofs.C06Thms Proofs.C06Fold.
 Open Scope Z_scope.
 
@@ -264,3 +265,46 @@ Theorem pd_cross_zone_ranges : forall a b, cross_pair a b -> p_instant a < p_ins
   exists r, py_precise_diff a b = Ok r /\ in_ranges r.
 Proof. exact pd_cross_zone_ranges_lemma. Qed.
 Print Assumptions pd_cross_zone_ranges.
+
+(* ---- one zone NAME carried by tzinfo objects of different CLASSES (pendulum Timezone / its base class zoneinfo.ZoneInfo / pytz / a hand-written
+   tzinfo answering .key, .name or .zone; streams pd-tzclass, interval-tzclass, history-tzclass-twins).  precise_diff compares the NAMES; the model
+   reads the identity of the tzinfo object only in CPython's == and >, which for operands with one UTC offset answer the same whatever objects
+   carry the zone (retag d i = d carried by the object i) *)
+Theorem comparison_ignores_tzinfo_identity : forall a b i j, p_offset a = p_offset b ->
+  p_eqb (retag a i) (retag b j) = p_eqb a b /\ p_gtb (retag a i) (retag b j) = p_gtb a b.
+Proof. exact cmp_ignores_identity. Qed.
+Print Assumptions comparison_ignores_tzinfo_identity.
+
+(* 2021-03-31T00:30+02:00 -> 2021-05-01T00:30+02:00 in Europe/Paris, one endpoint on pendulum's Timezone (object 1), the other on a plain ZoneInfo
+   (object 2): 1 month 1 day on the shared wall clock — both backends, both directions, either assignment of the objects — and a + (b - a) = b;
+   the last clause is the same pair read as two DIFFERENT zones (UTC calendar): 1 month 0 days *)
+Theorem pd_same_name_other_class_witness :
+  py_precise_diff (paris_a 1 5) (paris_b 2 5) = Ok (mkPD 0 1 1 0 0 0 0 31) /\
+  py_precise_diff (paris_a 2 5) (paris_b 1 5) = Ok (mkPD 0 1 1 0 0 0 0 31) /\
+  py_precise_diff (paris_a 1 5) (paris_b 1 5) = Ok (mkPD 0 1 1 0 0 0 0 31) /\
+  rs_precise_diff (paris_a 1 5) (paris_b 2 5) = mkPD 0 1 1 0 0 0 0 31 /\
+  py_precise_diff (paris_b 2 5) (paris_a 1 5) = Ok (mkPD 0 (-1) (-1) 0 0 0 0 (-31)) /\
+  rs_precise_diff (paris_b 2 5) (paris_a 1 5) = mkPD 0 (-1) (-1) 0 0 0 0 (-31) /\
+  of_dt (rebuild_of (py_pd (paris_a 1 5) (paris_b 2 5)) (paris_a 1 5) (paris_b 2 5)) = [0; 2021; 5; 1; 0; 30; 0; 0] /\
+  py_precise_diff (paris_a 1 5) (paris_b 2 6) = Ok (mkPD 0 1 0 0 0 0 0 31).
+Proof. exact same_name_other_class_witness. Qed.
+Print Assumptions pd_same_name_other_class_witness.
+
+(* current code (finding add-foreign-tzinfo-time-units): a START that carries a tzinfo which is not a pendulum class (self.tz is None) is moved to
+   UTC by DateTime.add when no unit of variable length is given and never moved back: 2023-02-27T23:59+01:00 + 30 minutes = 23:29 on the 27th *)
+Theorem iv_rebuild_foreign_start_refuted : exists a b,
+  p_tzname a = p_tzname b /\ p_offset a = p_offset b /\ p_wall a <= p_wall b /\
+  py_pd a b = Ok (mkPD 0 0 0 0 30 0 0 1) /\ rs_pd a b = Ok (mkPD 0 0 0 0 30 0 0 1) /\
+  of_dt (rebuild_of (py_pd a b) a b) = [0; 2023; 2; 28; 0; 29; 0; 0] /\
+  of_dt (rebuild_of_foreign (py_pd a b) a b) = [0; 2023; 2; 27; 23; 29; 0; 0] /\
+  of_dt (rebuild_of_foreign (rs_pd a b) a b) = [0; 2023; 2; 27; 23; 29; 0; 0].
+Proof. exact foreign_start_refuted. Qed.
+Print Assumptions iv_rebuild_foreign_start_refuted.
+
+(* ... and where it holds: with a unit of variable length, or a zero offset, the wall fields are those a pendulum-zone start reaches *)
+Theorem iv_rebuild_foreign_start_partial : forall a years months weeks days hours minutes seconds us r', p_is_dt a = true ->
+  (negb (years =? 0) || negb (months =? 0) || negb (weeks =? 0) || negb (days =? 0) = true \/ p_utcoffset a = 0) ->
+  dt_add a years months weeks days hours minutes seconds us = Ok r' ->
+  exists r, dt_add_foreign a years months weeks days hours minutes seconds us = Ok r /\ p_wall r = p_wall r'.
+Proof. exact foreign_start_partial. Qed.
+Print Assumptions iv_rebuild_foreign_start_partial.
